@@ -119,8 +119,26 @@ package hotstuffpb
 //@ func TimeoutMsgFromProto property C10
 //@   requires wtm(m)
 //@   modifies alloc
-//@ func BlockFromProto property C10
+// A block travels as its parent hash, batch, certificate, view, proposer and the instant of
+// its timestamp (seconds and nanoseconds).
+//@ func BlockToProto property C12
+//@   requires block != nil && encodable(block.cert.signature)
+//@   ensures [encoded] result != nil && wblock(result) && content(result.Parent) == abytes(block.parent) && len(result.Parent) == 32 && result.Commands == block.batch && result.View == block.view && result.Proposer == block.proposer
+//@   ensures [certificate] result.QC != nil && encodes(result.QC.Sig, block.cert.signature) && result.QC.View == block.cert.view && content(result.QC.Hash) == abytes(block.cert.hash) && len(result.QC.Hash) == 32
+//@   ensures [timestamp] result.Timestamp != nil && result.Timestamp.Seconds == tsecs(block.ts) && result.Timestamp.Nanos == tnanos(block.ts) && 0 <= result.Timestamp.Nanos && result.Timestamp.Nanos < 1000000000
+//@   modifies alloc
+//@ func BlockFromProto property C10,C12
 //@   requires wblock(block)
+//@   ensures [absent] block == nil ==> result == nil
+//@   ensures [decoded] block != nil ==> result != nil && result.parent == afrom(content(block.Parent), len(block.Parent), hotstuff.Hash{}) && result.batch == block.Commands && result.view == block.View && result.proposer == block.Proposer
+//@   ensures [certificate] block != nil && block.QC != nil ==> decodes(result.cert.signature, block.QC.Sig) && result.cert.view == block.QC.View && result.cert.hash == afrom(content(block.QC.Hash), len(block.QC.Hash), hotstuff.Hash{}) && ((block.QC.Sig == nil || block.QC.Sig.Sig == nil) ==> result.cert.signature == nil)
+//@   ensures [timestamp] block != nil && block.Timestamp != nil && 0 <= block.Timestamp.Nanos && block.Timestamp.Nanos < 1000000000 ==> tsecs(result.ts) == block.Timestamp.Seconds && tnanos(result.ts) == block.Timestamp.Nanos
+//@   modifies alloc
+//@ func verifRoundTripBlock property C12
+//@   requires block != nil && encodable(block.cert.signature)
+//@   ensures [round-trip] result != nil && result.parent == block.parent && result.batch == block.batch && result.view == block.view && result.proposer == block.proposer
+//@   ensures [round-trip-certificate] samesig(result.cert.signature, block.cert.signature) && result.cert.view == block.cert.view && result.cert.hash == block.cert.hash
+//@   ensures [round-trip-timestamp] tsecs(result.ts) == tsecs(block.ts) && tnanos(result.ts) == tnanos(block.ts)
 //@   modifies alloc
 //@ func ProposalFromProto property C10
 //@   requires wprop(p)
